@@ -261,3 +261,5 @@ N('benign.pair-composer-restructured', [(P + 'common/field.py', "        compose
                                           "        composer.compose_string(self.name)\n        if self.value is None:\n            return composer.composed\n\n        quote = '\"' if self.quoted else ''\n        composer.compose_separator(self.get_separator())\n        composer.compose_string(quote + self.value + quote)\n")])
 N('benign.epoch-mask-operand-order', [(P + 'common/parse.py', "datetime.datetime.fromtimestamp(0x00000000ffffffff & value, dateutil.tz.UTC)", "datetime.datetime.fromtimestamp(value & 0xffffffff, dateutil.tz.UTC)")])
 N('benign.reraise-explicit', [(P + 'common/parse.py', "        except NotEnoughData:\n            self._parsed_length -= parsed_length\n            raise", "        except NotEnoughData as e:\n            self._parsed_length -= parsed_length\n            raise e")])
+
+N('benign.ja3-rewritten', [(P + 'tls/subprotocol.py', '        extension_types = []\n        named_curves = []\n        ec_point_formats = []\n        for extension in self.extensions:\n            if (not isinstance(extension.extension_type, TlsInvalidTypeTwoByte) or\n                    extension.extension_type.value.value_type != TlsInvalidType.GREASE):\n                extension_types.append(str(extension.extension_type.value.code))\n\n            if extension.extension_type == TlsExtensionType.SUPPORTED_GROUPS:\n                named_curves = [\n                    str(named_curve.value.code)\n                    for named_curve in extension.elliptic_curves\n                    if (not isinstance(named_curve, TlsInvalidTypeTwoByte) or\n                        named_curve.value.value_type != TlsInvalidType.GREASE)\n                ]\n            elif extension.extension_type == TlsExtensionType.EC_POINT_FORMATS:\n                ec_point_formats = [\n                    str(point_format.value.code)\n                    for point_format in extension.point_formats\n                    if (not isinstance(point_format, TlsInvalidTypeOneByte) or\n                        point_format.value.value_type != TlsInvalidType.GREASE)\n                ]\n\n', '        extension_types = [\n            str(extension.extension_type.value.code)\n            for extension in self.extensions\n            if not (isinstance(extension.extension_type, TlsInvalidTypeTwoByte) and\n                    extension.extension_type.value.value_type == TlsInvalidType.GREASE)\n        ]\n        named_curves = []\n        ec_point_formats = []\n        try:\n            groups = self.extensions.get_item_by_type(TlsExtensionType.SUPPORTED_GROUPS)\n        except KeyError:\n            pass\n        else:\n            named_curves = [\n                str(named_curve.value.code)\n                for named_curve in groups.elliptic_curves\n                if (not isinstance(named_curve, TlsInvalidTypeTwoByte) or\n                    named_curve.value.value_type != TlsInvalidType.GREASE)\n            ]\n        try:\n            formats = self.extensions.get_item_by_type(TlsExtensionType.EC_POINT_FORMATS)\n        except KeyError:\n            pass\n        else:\n            ec_point_formats = [\n                str(point_format.value.code)\n                for point_format in formats.point_formats\n                if (not isinstance(point_format, TlsInvalidTypeOneByte) or\n                    point_format.value.value_type != TlsInvalidType.GREASE)\n            ]\n\n')])
